@@ -35,7 +35,7 @@ import jax
 from jax import random
 
 from . import axes_scan, meta
-from .frozen_dict import freeze, unfreeze
+from .frozen_dict import FrozenDict, freeze, unfreeze
 from .scope import (
     CollectionFilter,
     DenyList,  # pylint: disable=g-multiple-import
@@ -683,8 +683,18 @@ def jvp(
       y = fn(scope, *args)
       return y, repack_fn(scope)
 
+    # collections that are not in `variables` are lifted read-only, i.e. frozen:
+    # give their tangents the same container type. `args` is a tuple, the
+    # tangents may be given as a list.
+    var_tangents = tuple(
+      {
+        k: freeze(t) if isinstance(p.get(k), FrozenDict) else t
+        for k, t in vt.items()
+      }
+      for vt, p in zip(variable_tangents, jvp_vars)
+    )
     (y, out_vars), out_tangents = jax.jvp(
-      wrapper, (jvp_vars, args), (variable_tangents, tangents)
+      wrapper, (jvp_vars, args), (var_tangents, tuple(tangents))
     )
     return (y, out_tangents[0]), out_vars
 
